@@ -51,6 +51,9 @@ CHECKS = {
  "C17": dict(cat="model_checking", tech="TLA+ metamorphic twin relation JudgeC17: TLC checks that the line-level operators of the pipeline model commute with regrouping on every recipe (leg M), emits the recipes; two identical real proxies are stepped in lockstep on respelled / re-laid-out twins and TLC evaluates the twin relation on alpha(outputs)",
     text="Request universe (Route/Via/Record-Route lists of up to 3 entries in every layout x 4 (quick) / 7 (thorough) header orders x relaying paths) and response universe (11 Via shapes x layouts x 7 statuses): the model's outputs for a layout and for the flat layout are twin-related (TwinOK); on the real code each recipe is rendered once, its twin gets every header name independently respelled and every list re-cut, both run on two identical proxies with the same history; TLC compares destination, Via/Route/Record-Route stacks, canonical-name/value sequence of the remaining headers, body, Content-Length count.",
     note=TB + "nothing is compared with an expectation; a change breaking another property identically for both twins is invisible here by design.", ref="5/C17"),
+ "C12": dict(cat="model_checking", tech="TLA+ Affinity spec (transport table with object identity and the exact key discipline): TLC exhaustive over all request/response interleavings; TLC-sampled interleavings replayed on real client connections to a real TCP listener with the loop barrier as scheduler gate; Trace_Affinity judges where every response was read",
+    text="Affinity.tla model-checked over 3 connections x 5 transactions x {1xx then final, final only} with equal and different sent-by (36k states each); a one-object-per-peer design is shown to violate AffinityInv. TLC-sampled interleavings and random runs (2-8 connections from one address, 1-20 transactions each, received-support on/off, rport, sent-by as address or host name) on a real TCPServerTransport; where each relayed response is read is observed at system-call level, a listener on every sent-by address catches new connections.",
+    note=TB + "retransmitted finals are not claimed; branches pairwise distinct.", ref="5/C12"),
 }
 NA_REASON = "check not built yet (work in progress; see DESIGN.md section 9)"
 
